@@ -12,6 +12,8 @@ import (
 	"bufio"
 	"encoding/json"
 	"flag"
+	"io"
+	"log"
 	"fmt"
 	"math/rand"
 	"os"
@@ -123,6 +125,7 @@ func main() {
 	replay := flag.String("replay", "", "file of case lines to execute instead of generating")
 	corpus := flag.String("corpus", "", "corpus file of case lines executed first")
 	flag.Parse()
+	log.SetOutput(io.Discard) // the library logs dropped connections; keep the channel to ./check clean
 	pr, ok := props[*prop]
 	if !ok {
 		fmt.Fprintln(os.Stderr, "unknown property", *prop)
